@@ -670,7 +670,26 @@ func c03(r *core.Run) []*core.Violation {
 		if !attacker.Known {
 			w.N.SyncAccount(attacker)
 		}
-		tx, err := w.N.BuildTx([]*world.Account{attacker}, nil, forged.(sdk.Msg))
+		// the forged message travels alone, or in one transaction with a message that is legitimately the attacker's own
+		// (authorisation must be decided per message, not per transaction)
+		txMsgs := []sdk.Msg{forged.(sdk.Msg)}
+		own := func() sdk.Msg {
+			return &palomatypes.MsgAddStatusUpdate{Metadata: meta(attacker), Status: "hello", Level: palomatypes.MsgAddStatusUpdate_LEVEL_INFO}
+		}
+		switch t.Intn(4) {
+		case 1:
+			txMsgs = []sdk.Msg{own(), forged.(sdk.Msg)}
+			variant += ", after an own message in the same tx"
+		case 2:
+			txMsgs = []sdk.Msg{forged.(sdk.Msg), own()}
+			variant += ", before an own message in the same tx"
+		case 3:
+			if t.Draw(2) == 1 {
+				txMsgs = []sdk.Msg{own(), forged.(sdk.Msg), own()}
+				variant += ", between own messages in the same tx"
+			}
+		}
+		tx, err := w.N.BuildTx([]*world.Account{attacker}, nil, txMsgs...)
 		if err != nil {
 			r.Stats.Probe("attack_unbuildable")
 			continue
